@@ -129,7 +129,7 @@ impl<'xml> Deserializer<'xml> {
                     if memchr::memmem::find(&x, b"]]>").is_some() {
                         return Err(DeError::InvalidContent);
                     }
-                    DeEvent::Text(x)
+                    DeEvent::Text(normalize_line_ends(x)?)
                 }
                 Event::Eof => DeEvent::Eof,
 
@@ -141,7 +141,10 @@ impl<'xml> Deserializer<'xml> {
                 }
 
                 // a CDATA section is character data
-                Event::CData(x) => DeEvent::Text(x.escape().map_err(|e| invalid_xml(e.into()))?),
+                Event::CData(x) => {
+                    let text = x.escape().map_err(|e| invalid_xml(e.into()))?;
+                    DeEvent::Text(normalize_line_ends(text)?)
+                }
 
                 // ignore the others once they are known to be well-formed
                 Event::Comment(x) => {
@@ -325,7 +328,7 @@ impl<'xml> Deserializer<'xml> {
                     let s = String::from_utf8(buf).map_err(|_| DeError::InvalidContent)?;
                     x = BytesText::from_escaped(s);
                 }
-                f(normalize_line_ends(x)?)
+                f(x)
             }
             DeEvent::Eof => {
                 self.consume_peeked();
@@ -371,6 +374,8 @@ impl fmt::Debug for Deserializer<'_> {
 
 /// XML 1.0, 2.11: a literal CR LF or CR in a document stands for LF
 /// (a carriage return that is data arrives as the character reference `&#xD;`).
+/// This happens before anything else, so each piece of text is translated on its own:
+/// in `a\r<!--c-->\nb` the CR and the LF are two line ends.
 fn normalize_line_ends(text: BytesText<'_>) -> DeResult<BytesText<'_>> {
     if !text.contains(&b'\r') {
         return Ok(text);
